@@ -136,7 +136,10 @@ def kwarg(call: ast.Call, name: str) -> ast.AST | None:
     for k in call.keywords:
         if k.arg == name:
             return k.value
-    return None
+    # the normal form of calls (asv/callnorm.py) passes leading parameters by position
+    from .callnorm import find_arg
+
+    return find_arg(call, name)
 
 
 def arg_or_kw(call: ast.Call, pos: int, name: str) -> ast.AST | None:
